@@ -193,7 +193,19 @@ static inline double cmb_wtdsummary_variance(const struct cmb_wtdsummary *wsp)
 {
     cmb_assert_release(wsp != NULL);
 
-    return cmb_datasummary_variance((struct cmb_datasummary *)wsp);
+    /*
+     * The central sums m2..m4 of a weighted summary are weighted sums, to be
+     * normalized by the sum of the weights, not by the number of samples. The
+     * finite sample correction is by the number of (non-zero weight) samples.
+     */
+    const struct cmb_datasummary *dsp = (const struct cmb_datasummary *)wsp;
+    double r = 0.0;
+    if ((dsp->count > 1u) && (wsp->wsum > 0.0)) {
+        const double dn = (double)dsp->count;
+        r = (dsp->m2 / wsp->wsum) * (dn / (dn - 1.0));
+    }
+
+    return r;
 }
 
 /**
@@ -209,7 +221,7 @@ static inline double cmb_wtdsummary_stddev(const struct cmb_wtdsummary *wsp)
 {
     cmb_assert_release(wsp != NULL);
 
-    return cmb_datasummary_stddev((struct cmb_datasummary *)wsp);
+    return sqrt(cmb_wtdsummary_variance(wsp));
 }
 
 /**
@@ -225,7 +237,18 @@ static inline double cmb_wtdsummary_skewness(const struct cmb_wtdsummary *wsp)
 {
     cmb_assert_release(wsp != NULL);
 
-    return cmb_datasummary_skewness((struct cmb_datasummary *)wsp);
+    const struct cmb_datasummary *dsp = (const struct cmb_datasummary *)wsp;
+    double r = 0.0;
+    if ((dsp->count > 2u) && (wsp->wsum > 0.0) && (dsp->m2 > 0.0)) {
+        /* Population skewness, weighted sums normalized by the weight sum */
+        const double dn = (double)dsp->count;
+        const double g = sqrt(wsp->wsum) * dsp->m3 / pow(dsp->m2, 1.5);
+
+        /* Correction for finite sample */
+        r = sqrt(dn * (dn - 1.0)) * g / (dn - 2.0);
+    }
+
+    return r;
 }
 
 /**
@@ -241,7 +264,18 @@ static inline double cmb_wtdsummary_kurtosis(const struct cmb_wtdsummary *wsp)
 {
     cmb_assert_release(wsp != NULL);
 
-    return cmb_datasummary_kurtosis((struct cmb_datasummary *)wsp);
+    const struct cmb_datasummary *dsp = (const struct cmb_datasummary *)wsp;
+    double r = 0.0;
+    if ((dsp->count > 3u) && (wsp->wsum > 0.0) && (dsp->m2 > 0.0)) {
+        /* Population excess kurtosis, weighted sums normalized by the weight sum */
+        const double dn = (double)dsp->count;
+        const double g = wsp->wsum * dsp->m4 / (dsp->m2 * dsp->m2) - 3.0;
+
+        /* Correction for finite sample */
+        r = (dn - 1.0) / ((dn - 2.0) * (dn - 3.0)) * ((dn + 1.0) * g + 6.0);
+    }
+
+    return r;
 }
 
 /**
